@@ -409,3 +409,117 @@ pub fn record_worker(args: &[String]) {
     let fuel: usize = args.first().and_then(|s| s.parse().ok()).unwrap_or(400);
     sup::serve(move |line| record_case(line, fuel));
 }
+
+
+// ---- unparser that records the byte span of every subterm (path -> [start, end) of the subterm WITHOUT the
+// parentheses the unparser puts around it), optionally spreading the text over several lines
+pub struct SpanUnparser {
+    pub out: String,
+    pub spans: Vec<(Vec<String>, usize, usize)>,
+    next: usize,
+    multiline: bool,
+}
+impl SpanUnparser {
+    pub fn new(prefix: &str, multiline: bool) -> Self {
+        SpanUnparser { out: prefix.to_string(), spans: vec![], next: 0, multiline }
+    }
+    fn fresh(&mut self) -> String {
+        self.next += 1;
+        format!("\u{e9}{}", self.next) // non-ASCII names: columns after them differ in bytes and characters
+    }
+    fn open(&mut self) {
+        self.out.push('(');
+        if self.multiline {
+            self.out.push_str("\n  ");
+        }
+    }
+    pub fn go(&mut self, v: &Value, env: &mut Vec<String>, path: Vec<String>) {
+        let k = v["k"].as_str().unwrap();
+        let atom = matches!(k, "type" | "int" | "bool" | "true" | "false" | "hole" | "var") || (k == "lit");
+        if !atom {
+            self.open();
+        }
+        let start = self.out.len();
+        let sub = |p: &Vec<String>, x: &str| {
+            let mut q = p.clone();
+            q.push(x.to_string());
+            q
+        };
+        match k {
+            "type" | "int" | "bool" | "true" | "false" => self.out.push_str(k),
+            "hole" => self.out.push('_'),
+            "lit" => self.out.push_str(&tj::unbig(&v["v"]).to_string()),
+            "var" => {
+                let i = v["i"].as_u64().unwrap() as usize;
+                let n = if i < env.len() { env[env.len() - 1 - i].clone() } else { format!("free{}", i - env.len()) };
+                self.out.push_str(&n);
+            }
+            "lam" | "pi" => {
+                let x = self.fresh();
+                let imp = v["imp"].as_bool().unwrap_or(false);
+                self.out.push_str(if imp { "{" } else { "(" });
+                self.out.push_str(&x);
+                self.out.push_str(" : ");
+                self.go(&v["a"], env, sub(&path, "a"));
+                self.out.push_str(if imp { "}" } else { ")" });
+                self.out.push_str(if k == "lam" { " => " } else { " -> " });
+                env.push(x);
+                self.go(&v["b"], env, sub(&path, "b"));
+                env.pop();
+            }
+            "app" => {
+                self.go(&v["a"], env, sub(&path, "a"));
+                self.out.push(' ');
+                self.go(&v["b"], env, sub(&path, "b"));
+            }
+            "neg" => {
+                self.out.push_str("- ");
+                self.go(&v["a"], env, sub(&path, "a"));
+            }
+            "if" => {
+                self.out.push_str("if ");
+                self.go(&v["c"], env, sub(&path, "c"));
+                self.out.push_str(if self.multiline { "\n  then " } else { " then " });
+                self.go(&v["a"], env, sub(&path, "a"));
+                self.out.push_str(if self.multiline { "\n  else " } else { " else " });
+                self.go(&v["b"], env, sub(&path, "b"));
+            }
+            "bin" => {
+                let op = match v["op"].as_str().unwrap() {
+                    "sum" => "+", "diff" => "-", "prod" => "*", "quot" => "/", "lt" => "<", "le" => "<=", "eq" => "==", "gt" => ">", "ge" => ">=",
+                    o => panic!("op {o}"),
+                };
+                self.go(&v["a"], env, sub(&path, "a"));
+                self.out.push_str(if self.multiline { " " } else { " " });
+                self.out.push_str(op);
+                self.out.push_str(if self.multiline { "\n    " } else { " " });
+                self.go(&v["b"], env, sub(&path, "b"));
+            }
+            "let" => {
+                let defs = v["defs"].as_array().unwrap();
+                let names: Vec<String> = defs.iter().map(|_| self.fresh()).collect();
+                env.extend(names.iter().cloned());
+                for (j, (d, x)) in defs.iter().zip(&names).enumerate() {
+                    self.out.push_str(x);
+                    self.out.push_str(" : ");
+                    let mut pa = path.clone();
+                    pa.extend(["defs".to_string(), j.to_string(), "ann".to_string()]);
+                    self.go(&d["ann"], env, pa);
+                    self.out.push_str(" = ");
+                    let mut pd = path.clone();
+                    pd.extend(["defs".to_string(), j.to_string(), "def".to_string()]);
+                    self.go(&d["def"], env, pd);
+                    self.out.push_str(if self.multiline { "\n  " } else { "; " });
+                }
+                self.go(&v["b"], env, sub(&path, "b"));
+                env.truncate(env.len() - names.len());
+            }
+            o => panic!("kind {o}"),
+        }
+        let end = self.out.len();
+        self.spans.push((path, start, end));
+        if !atom {
+            self.out.push(')');
+        }
+    }
+}
